@@ -691,3 +691,23 @@ func verifLemma_C11_area_geometry_references(p1, p2, p3 Reference, primary TypeA
 	verifrt.Assert(len(got.Polygons) == 2 && got.Polygons[0] == 1 && got.Polygons[1] == 2, "polygon-boundaries")
 	verifrt.Assert(len(got.Paths) == 3 && got.Paths[0] == p1 && got.Paths[1] == p2 && got.Paths[2] == p3, "paths")
 }
+
+// ---- C01: compact values back to expressions (bounded) -----------------------------------
+// A mixed path geometry of one reference and one lat/lng becomes a list of exactly
+// two expressions: the feature ID and the point.
+func verifLemma_C01_from_compact_mixed(r Reference, ll LatLng) {
+	verifrt.Assume(ReferenceInvald == Reference{})
+	verifrt.Assume(r != ReferenceInvald)
+	t, ns := r.TypeAndNamespace.Split()
+	verifrt.Assume(ns == 1)
+	nt := vC08Table()
+	v := &ReferencesAndLatLngs{{Reference: r}, {LatLng: ll}}
+	e := fromCompactValue(v, nil, nt)
+	list, ok := e.AnyExpression.(b6.Expressions)
+	verifrt.Assert(ok, "is-a-list")
+	verifrt.Assert(len(list) == 2, "one-expression-per-element")
+	id, isID := list[0].(b6.FeatureIDExpression)
+	verifrt.Assert(isID && b6.FeatureID(id).Type == t && b6.FeatureID(id).Value == r.Value, "reference-element")
+	_, isPoint := list[1].(b6.PointExpression)
+	verifrt.Assert(isPoint, "point-element")
+}
